@@ -155,6 +155,7 @@ class gcvar(object):
         self.category = self._header['category'][0].strip()
         self.tracerid = self._header['tracerid'][0]
         self.base_units = self._header['base_units'][0]
+        self.reserved = self._header['reserved'][0]
         self.catoffset = [row['offset']
                           for row in self._parent._ddata
                           if row['category'] == self.category][0]
